@@ -44,7 +44,10 @@ ASSUMPTIONS = ["dyadic steps (1, 2, 250, 1/2, 1/4, 1/8): coordinates must equal 
                "coordinate dtypes float64, int64, int32 (integer start and step) and float32; on a float32 axis the queries are float32 values "
                "(a float64 query within float32 rounding of a coordinate is looked up by pandas as that coordinate: reported, not generated)",
                "the bracket is defined by the coordinates: axes are also given without a step attribute, with a stale one (subsampled with isel "
-               "keeping attrs, coarser claim) and irregular with an explicit step attribute",
+               "keeping attrs, coarser claim) and irregular with an explicit step attribute; likewise the range of an axis is that of its "
+               "coordinates: axes are also given start/stop attributes wider than the coordinates (set_dim_attrs, a pass through extend_dim)",
+               "range constructors are also exercised in histories (construct, edit the result in place, construct again): the second "
+               "result is judged by the same clauses",
                "a count is pinned only when (stop - start)/step is nominally whole; otherwise floor or ceil is accepted",
                "the class of the exception raised outside the range is not pinned by the statement (any exception counts as 'raises')"]
 
@@ -125,6 +128,25 @@ def pos_to_value(coords, step, p):
     raise ValueError(f"position {p} not expressible on an axis of {n} points")
 
 
+def with_range_attrs(arr, dims, step, ra):
+    """Give the coordinates start / stop attributes wider than their values: by set_dim_attrs, or by a pass through extend_dim
+    that adds no sample (it records start - eps and the requested stop)."""
+    for src, dl, dh in ra:
+        for dim in dims:
+            c = arr.coords[dim].data
+            lo, hi = float(c[0]), float(c[-1])
+            if src == "attrs":
+                arr = arrays.set_dim_attrs(arr, dim, start=lo - (dl / 8) * step, stop=hi + (dh / 8) * step)
+            elif src == "extend":
+                n = arr.sizes[dim]
+                arr = arrays.extend_dim(arr, dim, start=lo, stop=hi + (dh / 8) * step)
+                if arr.sizes[dim] != n:
+                    raise AssertionError("binder: the preparatory extend_dim changed the axis")
+            else:
+                raise ValueError(src)
+    return arr
+
+
 def _int(x) -> int:
     return ticks(float(x), 1.0)
 
@@ -146,15 +168,27 @@ def _range(case):
     if case["size"]:
         kw["size"] = case["size"][0]
     passed = [bits(s)] if case["st"] else []
-    try:
+
+    def construct(fn, kw):
         if fn == "range":
-            v = arrays.create_range_dim("x", a, stop, **kw)
-        elif fn == "time":
-            v = arrays.create_time_range(a, stop, **kw)
-        elif fn == "freq":
-            v = arrays.create_frequency_range(a, stop, s)
-        else:
-            raise ValueError(fn)
+            return arrays.create_range_dim("x", a, stop, **kw)
+        if fn == "time":
+            return arrays.create_time_range(a, stop, **kw)
+        if fn == "freq":
+            return arrays.create_frequency_range(a, stop, s)
+        raise ValueError(fn)
+
+    try:
+        v = construct(fn, kw)
+        for mut, fn2 in case.get("hist", []):
+            # history: edit the Variable we were given in place, then ask for the same range again; the second result is observed
+            if v.size:
+                if mut == "add":
+                    v.values[...] += 1000.0 + s
+                else:
+                    v.values[0] = stop + 1000.0
+            v = construct(fn2, {"step": s})
+            passed = [bits(s)]
     except Exception as ex:
         return {"raised": type(ex).__name__, "lim": [], "cb": [], "startb": bits(a), "stopb": bits(stop),
                 "step": limbs(float("nan")), "stepb": bits(float("nan")), "passed": passed}
@@ -168,6 +202,7 @@ def _index(case):
     n = case["n"]
     v = make_axis("x", case["a4"], case["s"], n, case.get("dt", "f8"), case.get("sa", [[1, 1]]), case.get("ir", 0))
     arr = xr.DataArray(np.zeros(v.sizes["x"]), dims=["x"], coords={"x": v})
+    arr = with_range_attrs(arr, ["x"], step_of(case), case.get("ra", []))
     coords = arr.coords["x"].data
     q = pos_to_value(coords, step_of(case), case["p"])
     kw = {} if case["re"] else {"raise_error": False}
@@ -200,6 +235,7 @@ def _set(case):
     arr = xr.DataArray(base, dims=[names[k - 1] for k in tr], coords=coords_reg)
     if tr != ident:
         arr = arr.transpose(*names)
+    arr = with_range_attrs(arr, [names[j] for j in range(d) if not (nc and nc[0] == j + 1)], step_of(case), case.get("ra", []))
     if tuple(arr.dims) != tuple(names) or tuple(arr.shape) != tuple(sh):
         raise AssertionError("binder built the wrong layout")
     coords = [np.asarray(arr[names[j]].data) for j in range(d)]
@@ -270,8 +306,9 @@ def random_cases(rng, tier):
         # np.arange fills start + i*((start+step)-start): the deviation grows like i*ulp(start); keep it far below the
         # 1e-9*step tolerance of CoordsOnLattice (generator restriction: |start| < 1 for the two sample-period units)
         a4 = rng.randrange(-3, 4) if s[1] > 1000 else rng.randrange(-32, 33)
+        hist = [[rng.choice(["add", "set0"]), rng.choice(["range", "time", "freq"])]] if st and not sr and not size and rng.random() < 0.3 else []
         yield {"kind": "range", "fn": fn, "st": st, "sr": sr, "size": size, "s": s, "a4": a4, "m": m,
-               "sm": rng.choice(["near", "fma"]) if fn == "range" and st and not size else "near"}
+               "sm": rng.choice(["near", "fma"]) if fn == "range" and st and not size and not hist else "near", "hist": hist}
     for _ in range(300 * k):
         s = rng.choice(UNITS)
         n = rng.randrange(1, 200)
@@ -289,7 +326,10 @@ def random_cases(rng, tier):
             if ir:
                 n = min(n, 60)
                 p = min(p, 8 * (n - 1) + 4)
-        yield {"kind": "index", "s": s, "a4": a4, "dt": dt, "n": n, "p": p, "re": rng.random() < 0.5, "sa": sa, "ir": ir}
+        ra = []
+        if dt == "f8" and sa == [[1, 1]] and ir == 0 and rng.random() < 0.3:
+            ra = [rng.choice([["attrs", rng.randrange(1, 40), rng.randrange(1, 40)], ["extend", 1, rng.randrange(1, 8)]])]
+        yield {"kind": "index", "s": s, "a4": a4, "dt": dt, "n": n, "p": p, "re": rng.random() < 0.5, "sa": sa, "ir": ir, "ra": ra}
     for _ in range(100 * k):
         d = rng.randrange(1, 4)
         sh = [rng.randrange(1, 4) for _ in range(d)]
